@@ -574,6 +574,26 @@ func (s *MutableState) SetNode(ctx context.Context, existingNode, node *node.Nod
 			return abciAPI.UnavailableStateError(err)
 		}
 	}
+	// Remove all old key mappings before inserting any new ones as a node may exchange its keys
+	// among themselves, in which case an old key of one kind is the new key of another kind.
+	if existingNode != nil && !existingNode.P2P.ID.Equal(node.P2P.ID) {
+		// Remove old P2P key mapping if it has changed.
+		if err = s.ms.Remove(ctx, keyMapKeyFmt.Encode(&existingNode.P2P.ID)); err != nil {
+			return abciAPI.UnavailableStateError(err)
+		}
+	}
+	if existingNode != nil && !existingNode.VRF.ID.Equal(node.VRF.ID) {
+		// Remove old VRF key if it has changed.
+		if err = s.ms.Remove(ctx, keyMapKeyFmt.Encode(&existingNode.VRF.ID)); err != nil {
+			return abciAPI.UnavailableStateError(err)
+		}
+	}
+	if existingNode != nil && !existingNode.TLS.PubKey.Equal(node.TLS.PubKey) {
+		// Remove old TLS key mapping if it has changed.
+		if err = s.ms.Remove(ctx, keyMapKeyFmt.Encode(&existingNode.TLS.PubKey)); err != nil {
+			return abciAPI.UnavailableStateError(err)
+		}
+	}
 	address := []byte(tmcrypto.PublicKeyToCometBFT(&node.Consensus.ID).Address())
 	if err = s.ms.Insert(ctx, nodeByConsAddressKeyFmt.Encode(address), rawNodeID); err != nil {
 		return abciAPI.UnavailableStateError(err)
@@ -583,34 +603,16 @@ func (s *MutableState) SetNode(ctx context.Context, existingNode, node *node.Nod
 	}
 
 	// Committee P2P key.
-	if existingNode != nil && !existingNode.P2P.ID.Equal(node.P2P.ID) {
-		// Remove old P2P key mapping if it has changed.
-		if err = s.ms.Remove(ctx, keyMapKeyFmt.Encode(&existingNode.P2P.ID)); err != nil {
-			return abciAPI.UnavailableStateError(err)
-		}
-	}
 	if err = s.ms.Insert(ctx, keyMapKeyFmt.Encode(&node.P2P.ID), rawNodeID); err != nil {
 		return abciAPI.UnavailableStateError(err)
 	}
 
 	// VRF key.
-	if existingNode != nil && !existingNode.VRF.ID.Equal(node.VRF.ID) {
-		// Remove old VRF key if it has changed.
-		if err = s.ms.Remove(ctx, keyMapKeyFmt.Encode(&existingNode.VRF.ID)); err != nil {
-			return abciAPI.UnavailableStateError(err)
-		}
-	}
 	if err = s.ms.Insert(ctx, keyMapKeyFmt.Encode(&node.VRF.ID), rawNodeID); err != nil {
 		return abciAPI.UnavailableStateError(err)
 	}
 
 	// Committee TLS key.
-	if existingNode != nil && !existingNode.TLS.PubKey.Equal(node.TLS.PubKey) {
-		// Remove old TLS key mapping if it has changed.
-		if err = s.ms.Remove(ctx, keyMapKeyFmt.Encode(&existingNode.TLS.PubKey)); err != nil {
-			return abciAPI.UnavailableStateError(err)
-		}
-	}
 	if err = s.ms.Insert(ctx, keyMapKeyFmt.Encode(&node.TLS.PubKey), rawNodeID); err != nil {
 		return abciAPI.UnavailableStateError(err)
 	}
